@@ -90,6 +90,7 @@ def populate(b, per_class=2):
     b.seed_holders = {}
     b.vals = {}             # (root, pk) -> the value n of all its v<a> attributes
     b.links = {}            # Link pk -> holder pk (for every seed holder): chain Link.h -> Holder.ref<c> -> object
+    b.many_multi = {}       # root -> [(holder pk, [(pk, class id)])]: three owners of the same m2m attribute with disjoint members
     b.many = {}             # root -> (holder pk, [(pk, class id)]): a many-to-many collection holding the first object of every class of the tree
     seen_cls = set()
     with b.orm.db_session:
@@ -120,6 +121,13 @@ def populate(b, per_class=2):
             members = [(pk, k) for (rr, pk), k in sorted(created.items()) if rr == r and any(s[2] == pk and s[1] == r for s in b.seed_holders.values())]
             h = b.Holder(**{'many%d' % r: [b.classes[r][pk] for pk, k in members]}); b.orm.flush()
             b.many[r] = (h.get_pk(), members)
+            # several owners of the same many-to-many attribute, with disjoint member sets (every object of the tree, dealt round-robin)
+            allm = [(pk, k) for (rr, pk), k in sorted(created.items()) if rr == r]
+            groups = [allm[j::3] for j in range(3)]
+            b.many_multi[r] = []
+            for g_ in groups:
+                h = b.Holder(**{'many%d' % r: [b.classes[r][pk] for pk, k in g_]}); b.orm.flush()
+                b.many_multi[r].append((h.get_pk(), g_))
     return created, holders
 
 
@@ -164,6 +172,23 @@ def many_iter(b, r):
     with b.orm.db_session:
         h = b.Holder[hpk]
         return sorted((o.get_pk(), cname(o)) for o in getattr(h, 'many%d' % r))
+
+
+def many_iter_multi(b, r, order, pre='iter'):
+    """fresh session: all owners of the many-to-many attribute are fetched first (they sit in the session cache together, so that reading the
+    collection of a second owner lets Pony bulk-load the collections of all remaining owners), then the collections are read one after
+    another in `order` -> [(owner index, pk, class id at first access)].  pre: how each collection is touched before iterating
+    ('iter' = just iterate, 'len' = len() first, 'in' = a membership test first)"""
+    owners = b.many_multi[r]
+    out = []
+    with b.orm.db_session:
+        hs = [b.Holder[hpk] for hpk, _ in owners]
+        for n in order:
+            coll = getattr(hs[n], 'many%d' % r)
+            if pre == 'len': len(coll)
+            elif pre == 'in': (hs[n] in coll)
+            out += sorted((n, o.get_pk(), cname(o)) for o in coll)
+    return out
 
 
 def unpickled_ref(b, hpk, c):
